@@ -178,6 +178,82 @@ def run(res, tier):
     res.ob('SINGLE-WRITER', 'util/PulseNode.h', 'only ReschedulePulseChild and the constructor write %s (%d functions scanned)' % (', '.join(LINKS), nsc), not bad, function=PN,
            how='0 other writers', key='SINGLE-WRITER|%s|%s' % (PN, bad[0][0] if bad else ''),
            message='%s writes PulseNode::%s at %s outside the list-maintenance routine' % (bad[0][0], bad[0][2], bad[0][1]) if bad else '')
+    # ---- round-1 additions
+    res.rule('LINKS', 'PulseNode: no sibling/child link value loaded before a callback (PulseAux/Pulse, which may re-link, detach or destroy siblings) is used after it; ordering comparisons between two '
+                      'nodes compare the same field on both sides; RemovePulseChild decides "was this the head of the schedule?" before it unlinks the child', floor=3)
+    LINKF = ('_nextSibling', '_prevSibling', '_firstChild', '_lastChild')
+    n_l = 0
+    for f in sorted((f for f in fx.funcs.values() if f.full and f.cls == PN), key=lambda f: f.line):
+        cbs = [c for c in f.walk() if c.is_call() and (c.get('q') or '') in (PN + '::PulseAux', PN + '::Pulse')]
+        if not cbs:
+            continue
+        n_l += 1
+        bad = None
+        for v in f.walk():
+            d = None
+            src = None
+            if v['k'] == 'VarDecl' and v['ch'] and v.type().rstrip().endswith('*'):
+                d, src = v['d'], v['ch'][0]
+            elif v['k'] == 'BinaryOperator' and v.get('op') == '=' and A.strip_casts(v['ch'][0])['k'] == 'DeclRefExpr' and 'd' in A.strip_casts(v['ch'][0]):
+                d, src = A.strip_casts(v['ch'][0])['d'], v['ch'][1]
+            if d is None or not any(x['k'] == 'MemberExpr' and x.get('n') in LINKF for x in src.walk()):
+                continue
+            vp = P.pos_of(f, v)
+            # other definitions of the same local kill the value
+            defs = set()
+            for w in f.walk():
+                if w is not v and ((w['k'] == 'BinaryOperator' and w.get('op') == '=' and A.strip_casts(w['ch'][0]).get('d') == d) or (w['k'] == 'VarDecl' and w.get('d') == d)):
+                    wp = P.pos_of(f, w)
+                    if wp:
+                        defs.add(wp)
+            for cb in cbs:
+                cp = P.pos_of(f, cb)
+                if not (vp and cp and ((vp[0] == cp[0] and vp[1] < cp[1]) or C.can_reach(f, vp, set([cp]), avoid_points=defs))):
+                    continue
+                # the call's own receiver/argument evaluation is "before" the call; uses strictly after it count
+                for u in f.walk():
+                    if u['k'] == 'DeclRefExpr' and u.get('d') == d and not any(a is cb for a in u.ancestors()):
+                        up = P.pos_of(f, u)
+                        par = u.parent
+                        if par is not None and par['k'] == 'BinaryOperator' and par.get('op') == '=' and par['ch'][0] is u:
+                            continue
+                        kills = set(defs) | set([vp])       # after the callback the value is dead as soon as the local is loaded afresh (also by this very statement, next time round)
+                        if up and ((cp[0] == up[0] and cp[1] < up[1] and not any(k_[0] == cp[0] and cp[1] < k_[1] < up[1] for k_ in kills)) or
+                                   (not (cp[0] == up[0] and cp[1] < up[1]) and C.can_reach(f, cp, set([up]), avoid_points=kills))):
+                            bad = (v, cb, u)
+        res.ob('LINKS', f.where(), '%s: no link value loaded before a Pulse callback is used after it' % f.q.split('::')[-1], bad is None, function=f.q, key='LINKS|%s|stale-link' % f.q,
+               message='%s: the link loaded at line %s is used at line %s after the callback at line %s: a Pulse() callback may reschedule, detach or delete the sibling it points to, so the walk skips due '
+                       'siblings (or touches a freed node)' % (f.q, bad[0].get('l') if bad else '', bad[2].get('l') if bad else '', bad[1].get('l') if bad else ''))
+    if n_l < 1:
+        raise AnalysisBroken('LINKS: no function with a Pulse callback found')
+    f = fx.fn1(PN + '::ReschedulePulseChild')
+    TIMEF = ('_aggregatePulseTime', '_myScheduledTime')
+    n_cmp = 0
+    for n in f.walk():
+        if n['k'] == 'BinaryOperator' and n.get('op') in ('<', '<=', '>', '>='):
+            l, r = A.strip_casts(n['ch'][0]), A.strip_casts(n['ch'][1])
+            if l['k'] == 'MemberExpr' and r['k'] == 'MemberExpr' and l.get('n') in TIMEF and r.get('n') in TIMEF and not A.is_this_member(l) and not A.is_this_member(r):
+                n_cmp += 1
+                res.ob('LINKS', f.where(n), 'ReschedulePulseChild orders two nodes by the same field (`%s`)' % n.text(60), l.get('n') == r.get('n'), function=f.q, key='LINKS|%s|same-field:%s' % (f.q, n.get('op')),
+                       message='ReschedulePulseChild compares `%s`: the sibling list is sorted by _aggregatePulseTime (own time and descendants), so a node whose own time is late but which has an early '
+                               'descendant is filed too late; the parent\'s aggregate, taken from the list head, then misses that descendant' % n.text(70))
+    if n_cmp < 2:
+        raise AnalysisBroken('LINKS: %d ordering comparisons found in ReschedulePulseChild' % n_cmp)
+    f = fx.fn1(PN + '::RemovePulseChild')
+    unl = [c for c in f.walk() if c.is_call() and (c.get('q') or '') == PN + '::ReschedulePulseChild' and c.args() and len(c.args()) >= 2 and A.strip_casts(c.args()[1]).get('v') == -1]
+    heads = [n for n in f.walk() if n['k'] == 'BinaryOperator' and n.get('op') == '==' and any(x['k'] == 'MemberExpr' and x.get('n') == '_firstChild' for x in n.walk())]
+    if not unl or not heads:
+        raise AnalysisBroken('LINKS: RemovePulseChild: unlink call / head-of-schedule test not found')
+    bad = False
+    for h in heads:
+        hp = P.pos_of(f, h)
+        for u in unl:
+            up = P.pos_of(f, u)
+            if hp and up and ((up[0] == hp[0] and up[1] < hp[1]) or C.can_reach(f, up, set([hp]))):
+                bad = True
+    res.ob('LINKS', f.where(heads[0]), 'RemovePulseChild tests `child == _firstChild[SCHEDULED]` before unlinking the child', not bad, function=f.q, key='LINKS|%s|head-test-first' % f.q,
+           message='RemovePulseChild evaluates "was the child the head of the schedule?" after ReschedulePulseChild(child, -1) has unlinked it, so the answer is always no: the node never asks its own parent '
+                   'to recalculate it and keeps advertising the removed child\'s (too early) time')
     res.explanation = ('Static decision of the scheduler\'s structural invariants on util/PulseNode.cpp: the virtual Pulse() is dispatched only under (valid AND now >= scheduled time) with the scheduled time as '
                        'argument; children are descended only while due; a pulsed node is invalidated and every invalidation asks the parent for a recalculation; the aggregate time has one writer and is the '
                        'min of own and earliest child; the list links have one writer. The schedule over histories and re-entrancy from callbacks are not decided.')
